@@ -5,7 +5,12 @@ from __future__ import annotations
 
 # (written title, slug, plain title text)   slugs follow the documented GitHub rule
 TITLES = [("Alpha", "alpha", "Alpha"), ("Beta Two", "beta-two", "Beta Two"), ("gamma!", "gamma", "gamma!"),
-          ("Delta `code`", "delta-code", "Delta code"), ("Tgt", "tgt", "Tgt"), ("", "", "")]
+          ("Delta `code`", "delta-code", "Delta code"), ("Tgt", "tgt", "Tgt"), ("", "", ""),
+          # prefix-sharing titles: an earlier slug starts with "<base>-" of a title that is repeated later
+          ("Notes 2", "notes-2", "Notes 2"), ("Notes", "notes", "Notes"), ("Usage", "usage", "Usage"),
+          ("Usage guide", "usage-guide", "Usage guide"), ("Setup", "setup", "Setup")]
+# footnote labels: a footnote registers its label as a name, but footnotes are not '#'-link targets
+FOOT_LABELS = ["setup", "extra", "delta-code", "notes"]
 # explicit names as written; registered form = lower-cased, whitespace collapsed
 NAMES = ["tgt", "Alpha", "beta-two", "My  Name", "Cap", "x1", "gamma", "Omega"]
 MISSING = ["nope", "alpha-9", "zz top"]
@@ -41,7 +46,10 @@ def gen_case(rng, want_empty_title=None):
         return start
 
     def add_heading(quote=False):
-        cands = [t for t in TITLES if used_titles.get(t[1], 0) < 2 and (t[0] != "" or empty_ok)]
+        cands = [t for t in TITLES if used_titles.get(t[1], 0) < (3 if t[1] in ("notes", "usage") else 2) and (t[0] != "" or empty_ok)]
+        if cands and rng.random() < 0.35:
+            pref = [t for t in cands if t[1] in ("notes", "notes-2", "usage", "usage-guide")]
+            cands = pref or cands
         if not cands:
             return
         written, slug, plain = rng.choice(cands)
@@ -158,10 +166,24 @@ def gen_case(rng, want_empty_title=None):
             i["place"] = place
             links.append(i)
 
+    foot_labels = []
+
+    def add_footnote():
+        cands = [l for l in FOOT_LABELS if l not in foot_labels]
+        if not cands:
+            return
+        lab = rng.choice(cands)
+        foot_labels.append(lab)
+        m = marker("ft")
+        emit([f"{m} note[^{lab}]"])
+        emit([f"[^{lab}]: footnote text {m}"])
+
     n_blocks = rng.randint(3, 9)
     for _ in range(n_blocks):
         r = rng.random()
-        if r < 0.3:
+        if r < 0.1:
+            add_footnote()
+        elif r < 0.3:
             add_heading(quote=rng.random() < 0.12)
         elif r < 0.6:
             add_target()
@@ -184,9 +206,12 @@ def gen_case(rng, want_empty_title=None):
     for h in headings:
         if h["level"] > heading_anchors:
             continue
+        # the documented rule: the base slug, else base-1, base-2, ... skipping slugs that are taken
         s = h["slug_base"]
-        if s in slugs:
-            s = s + "-1"
+        i = 1
+        while s in slugs:
+            s = f"{h['slug_base']}-{i}"
+            i += 1
         slugs[s] = h
         h["slug"] = s
     text = "\n".join(lines) + "\n"
@@ -204,8 +229,10 @@ def gen_case(rng, want_empty_title=None):
             frag = rng.choice(variants)
         elif r < 0.82 and dups:
             frag = rng.choice(dups)
-        elif r < 0.9 and headings:
-            frag = rng.choice(headings)["slug_base"] + rng.choice(["", "-1", "-2"])
+        elif r < 0.86 and foot_labels:
+            frag = rng.choice(foot_labels)          # only a footnote (or a heading slug) carries this name
+        elif r < 0.92 and headings:
+            frag = rng.choice(headings)["slug_base"] + rng.choice(["", "-1", "-2", "-3"])
         else:
             frag = rng.choice(MISSING)
         form = rng.choice(["text", "empty", "auto"])
